@@ -9,5 +9,6 @@ for pid in "$@"; do
   ./check $pid --tier quick 2>&1 | grep -E "VIOLATION|KNOWN|obligations" 
 done
 git -C /repo checkout -- .
+python3 -c "import sys; sys.path.insert(0, 'tools'); import vlib; vlib.build_harness(release=True)" >/dev/null 2>&1   # harness back on the unchanged tree
 rm -rf evidence; mv build/evidence.keep evidence   # evidence must describe the unchanged tree
 git -C /repo status --short | head -3
